@@ -3,8 +3,9 @@
   (lib/python/pyflyby/_livepatch.py:164-530, 619-730) over an abstract object heap.
 
   Heap: `List Obj`, an object's id is its index.  Objects:
-    func   name, __module__, tokens for __code__/__defaults__/__doc__, id of __dict__, ids of the closure cells'
-           contents, co_freevars                      (cells themselves are never rebound by livepatch)
+    func   name, __module__, tokens for __code__/__defaults__/__doc__, id of __dict__, ids of the closure cells,
+           co_freevars
+    cell   a closure cell: id of its content
     cls    name, __module__, names in __slots__ (if any), ids of the bases that are heap classes, the class __dict__
            as an association list name -> id of the *raw* entry
     dict   association list key -> id
@@ -40,16 +41,17 @@ inductive Obj where
   | smeth (func : Id)
   | cmeth (func : Id)
   | module (dict : Id)
+  | cell (content : Id)
   | atom (ty : Str) (val : Str)
   deriving Repr, DecidableEq, Inhabited
 
 inductive Kind where
-  | func | cls | dict | inst | meth | smeth | cmeth | module | atom
+  | func | cls | dict | inst | meth | smeth | cmeth | module | cell | atom
   deriving Repr, DecidableEq, Inhabited
 
 def Obj.kind : Obj → Kind
   | .func .. => .func | .cls .. => .cls | .dict .. => .dict | .inst .. => .inst | .meth .. => .meth
-  | .smeth .. => .smeth | .cmeth .. => .cmeth | .module .. => .module | .atom .. => .atom
+  | .smeth .. => .smeth | .cmeth .. => .cmeth | .module .. => .module | .cell .. => .cell | .atom .. => .atom
 
 inductive Err where
   | fuel            -- model ran out of fuel (never on the inputs of the correspondence check)
@@ -92,9 +94,18 @@ structure St where
   cache : List ((Id × Id) × Id)
   deriving Repr, Inhabited
 
+/-- Which of the proposed repairs (fixes/C16-*.diff) the tree under test contains.  All `false` = the code as found. -/
+structure Fixes where
+  d18 : Bool := false     -- bases of a patched class are mapped through livepatch / the cache
+  d41 : Bool := false     -- `setattr(oldobj, name, getattr(newobj, name))` for a slot only set on the new instance
+  d44 : Bool := false     -- the `__dict__` / `__weakref__` descriptors are left alone by `_livepatch__class`
+  d45 : Bool := false     -- a cell whose content could not be patched in place is re-pointed to the new content
+  deriving Repr, Inhabited, DecidableEq
+
 structure Ctx where
   modname : Option Str
   sysmods : List (Str × Id)      -- sys.modules while livepatch runs
+  fx : Fixes := {}
   deriving Repr, Inhabited
 
 def M (α : Type) := St → Except Err (α × St)
@@ -146,6 +157,11 @@ def updClsBases (i : Id) (bases : List Id) : M Unit := fun s =>
   | some (.cls n m sl _ a) => .ok ((), { s with heap := s.heap.set i (.cls n m sl bases a) })
   | _ => .error .stuck
 
+def updCell (i : Id) (v : Id) : M Unit := fun s =>
+  match s.heap[i]? with
+  | some (.cell _) => .ok ((), { s with heap := s.heap.set i (.cell v) })
+  | _ => .error .stuck
+
 def updInstSlots (i : Id) (f : List (Str × Id) → List (Str × Id)) : M Unit := fun s =>
   match s.heap[i]? with
   | some (.inst c d sl) => .ok ((), { s with heap := s.heap.set i (.inst c d (f sl)) })
@@ -189,9 +205,16 @@ def cellEq (h : List Obj) (a b : Id) : Bool :=
     | _, _ => false
 
 /-- the closure check loop of `_livepatch__function` -/
+def cellContent (h : List Obj) (c : Id) : Option Id :=
+  match h[c]? with
+  | some (.cell v) => some v
+  | _ => none
+
 def cellsCompat (h : List Obj) : List Id → List Id → Bool
-  | a :: as, b :: bs =>
-    sameType h a b && (updatable h a || cellEq h a b) && cellsCompat h as bs
+  | ca :: as, cb :: bs =>
+    (match cellContent h ca, cellContent h cb with
+     | some a, some b => sameType h a b && (updatable h a || cellEq h a b)
+     | _, _ => false) && cellsCompat h as bs
   | _, _ => true
 
 /-- all the conditions under which `_livepatch__function` patches in place -/
@@ -324,13 +347,21 @@ def lpDict (rec : Rec) (vs : List Id) (old new : Id) : M Id := do
   | _, _ => fail .stuck
 
 /-- `_livepatch__function` -/
-def lpCells (rec : Rec) (vs : List Id) : List Id → List Id → M Unit
-  | a :: as, b :: bs => do
-    let _ ← rec vs a b        -- the result is discarded by the code
-    lpCells rec vs as bs
+def lpCells (cx : Ctx) (rec : Rec) (vs : List Id) : List Id → List Id → M Unit
+  | ca :: as, cb :: bs => do
+    let oc ← getObj ca
+    let nc ← getObj cb
+    match oc, nc with
+    | .cell a, .cell b => do
+      let r ← rec vs a b        -- the code as found discards the result
+      if cx.fx.d45 && r != a then do
+        updCell ca r
+        lpCells cx rec vs as bs
+      else lpCells cx rec vs as bs
+    | _, _ => fail .stuck
   | _, _ => pure ()
 
-def lpFunction (rec : Rec) (vs : List Id) (old new : Id) : M Id := do
+def lpFunction (cx : Ctx) (rec : Rec) (vs : List Id) (old new : Id) : M Id := do
   let o ← getObj old
   let n ← getObj new
   match o, n with
@@ -339,31 +370,58 @@ def lpFunction (rec : Rec) (vs : List Id) (old new : Id) : M Id := do
     if !funcCompat s.heap old new then pure new else do
     updFunc old ncode ndef ndoc
     let _ ← rec vs od nd
-    lpCells rec vs oc nc
+    lpCells cx rec vs oc nc
     pure old
   | _, _ => fail .stuck
 
 /-- `_livepatch__method`: goes straight to `_livepatch__function` (no visit-stack check, no cache) -/
-def lpMethod (rec : Rec) (vs : List Id) (old new : Id) : M Id := do
+def lpMethod (cx : Ctx) (rec : Rec) (vs : List Id) (old new : Id) : M Id := do
   let o ← getObj old
   let n ← getObj new
   match o, n with
   | .meth fo _, .meth fn _ => do
-    let _ ← lpFunction rec vs fo fn
+    let _ ← lpFunction cx rec vs fo fn
     pure old
   | _, _ => fail .stuck
 
 /-- `_livepatch__class` -/
-def lpClass (rec : Rec) (vs : List Id) (old new : Id) : M Id := do
+def weakrefKey : Str := "__weakref__".toList
+
+/-- fixes/C16-D18.diff: `_livepatch__bases` — each new base that has a namesake among the old bases is livepatched
+    with it; otherwise a class already livepatched (found in the cache by the id of the new class) is used. -/
+def sameNameCls (h : List Obj) (nb : Id) (ob : Id) : Bool :=
+  match h[nb]?, h[ob]? with
+  | some (.cls n m ..), some (.cls n' m' ..) => n == n' && m == m'
+  | _, _ => false
+
+def lpBases (rec : Rec) (vs : List Id) (oldBases : List Id) : List Id → M (List Id)
+  | [] => pure []
+  | nb :: rest => do
+    let s ← getSt
+    match oldBases.find? (sameNameCls s.heap nb) with
+    | some ob => do
+      let r ← rec vs ob nb
+      let rs ← lpBases rec vs oldBases rest
+      pure (r :: rs)
+    | none => do
+      let r := ((s.cache.find? (fun e => e.1.2 = nb)).map (·.2)).getD nb
+      let rs ← lpBases rec vs oldBases rest
+      pure (r :: rs)
+
+def lpClass (cx : Ctx) (rec : Rec) (vs : List Id) (old new : Id) : M Id := do
   let o ← getObj old
   let n ← getObj new
   match o, n with
-  | .cls _ _ osl _ oa, .cls _ _ _ nb na => do
+  | .cls _ _ osl ob oa0, .cls _ _ _ nb na0 => do
     let s ← getSt
-    if !optValEq s.heap (alookup slotsKey oa) (alookup slotsKey na) then pure new else do
+    if !optValEq s.heap (alookup slotsKey oa0) (alookup slotsKey na0) then pure new else do
+    -- fixes/C16-D44.diff: the layout descriptors are neither added, removed nor updated
+    let oa := if cx.fx.d44 then oa0.filter (fun p => p.1 != dictKey && p.1 != weakrefKey) else oa0
+    let na := if cx.fx.d44 then na0.filter (fun p => p.1 != dictKey && p.1 != weakrefKey) else na0
     forEach (delattrOf old) ((akeys oa).filter (fun k => !hasKey k na))
     forEach (fun k => setattrOf old k ((alookup k na).getD 0)) ((akeys na).filter (fun k => !hasKey k oa))
-    updClsBases old nb
+    let bases ← if cx.fx.d18 then lpBases rec vs ob nb else pure nb
+    updClsBases old bases
     match alookup docKey na with
     | none => fail .stuck
     | some d => do
@@ -375,7 +433,7 @@ def lpClass (rec : Rec) (vs : List Id) (old new : Id) : M Id := do
   | _, _ => fail .stuck
 
 /-- the slots loop of `_livepatch__object` -/
-def lpSlotStep (rec : Rec) (vs : List Id) (old new : Id) (name : Str) : M Unit := do
+def lpSlotStep (cx : Ctx) (rec : Rec) (vs : List Id) (old new : Id) (name : Str) : M Unit := do
   let o ← getObj old
   let n ← getObj new
   match o, n with
@@ -383,7 +441,8 @@ def lpSlotStep (rec : Rec) (vs : List Id) (old new : Id) (name : Str) : M Unit :
     match hasKey name so, hasKey name sn with
     | true, true => lpSetattr rec vs old new name
     | true, false => delattrOf old name
-    | false, true => fail .typeError          -- setattr(oldobj, getattr(newobj, name))
+    | false, true =>          -- the code as found: setattr(oldobj, getattr(newobj, name)) -> TypeError
+      if cx.fx.d41 then setattrOf old name ((alookup name sn).getD 0) else fail .typeError
     | false, false => pure ()
   | _, _ => fail .stuck
 
@@ -406,7 +465,7 @@ def lpObject (cx : Ctx) (rec : Rec) (vs : List Id) (old new : Id) : M Id := do
           | none => fail .attributeError
           | some (sv', names') =>
             if !valEq s.heap sv sv' then fail .assertion else do
-            forEach (lpSlotStep rec vs old new) names'
+            forEach (lpSlotStep cx rec vs old new) names'
             pure old
         | _ => fail .stuck
       | none =>
@@ -473,9 +532,9 @@ def dispatch (cx : Ctx) (rec : Rec) (vs : List Id) (old new : Id) (assumeModule 
   match k with
   | none => pure new
   | some .dict => lpDict rec vs old new
-  | some .func => lpFunction rec vs old new
-  | some .meth => lpMethod rec vs old new
-  | some .cls => lpClass rec vs old new
+  | some .func => lpFunction cx rec vs old new
+  | some .meth => lpMethod cx rec vs old new
+  | some .cls => lpClass cx rec vs old new
   | some .module => lpModule rec vs old new
   | some _ => lpObject cx rec vs old new
 
@@ -521,6 +580,7 @@ structure ReloadIn where
   outcome : ExecOutcome
   mtime : Obj                 -- the float stored into `__loadtime__`
   fuel : Nat
+  fx : Fixes := {}
   deriving Repr, Inhabited
 
 def restore (name : Str) (saved : Option Id) (sm : List (Str × Id)) : List (Str × Id) :=
@@ -541,7 +601,7 @@ def xreload (w : World) (i : ReloadIn) : World × Except Err Id :=
   | .ok objs =>
     let sm1 := aset i.name newMod w.sysmods
     let h1 := w.heap ++ objs
-    let cx : Ctx := { modname := some i.name, sysmods := sm1 }
+    let cx : Ctx := { modname := some i.name, sysmods := sm1, fx := i.fx }
     match lp cx i.fuel true [] i.module newMod { heap := h1, cache := [] } with
     | .error e => ({ heap := h1, sysmods := restore i.name saved sm1 }, .error e)   -- heap of the failed attempt is lost to the model
     | .ok (r, s) =>
